@@ -60,6 +60,7 @@ struct Case {
     output: u64,
     pre: u64,
     extra: u64,
+    #[allow(dead_code)]
     longflags: bool,
     /// 0: `-i P -o Q`; 1: `--input P --output Q`; 2: `--input=P --output=Q`; 3: `-iP -oQ`
     arg_form: u64,
@@ -419,6 +420,9 @@ fn run_once(sets: &[InputSet], c: &Case, spelling: u64, expected: &Expected) -> 
         faults: c.fault.iter().cloned().collect(),
         stderr_full: c.stderr_full,
         rust_log: [None, Some("debug"), Some("trace")][c.rust_log as usize % 3],
+        // clock and pid follow the entropy choice: two cases differ in them, the two runs of one case do not
+        clock_base: if c.entropy == 0 { 0 } else { 1_000_000_000 + c.entropy % 3_000_000_000 },
+        pid: if c.entropy == 0 { 0 } else { 2 + c.entropy % 4_000_000 },
         tmpdir: Some(match c.tmpdir {
             1 => out_abs.parent().map_or_else(|| top.clone(), Path::to_path_buf),
             2 => PathBuf::from("."),
